@@ -17,7 +17,7 @@ package resolvers
 // refused and nothing that can write has been called.
 //@ func mutationResolver.* implementing graph.MutationResolver
 //@   props C17
-//@   requires ctx != nil
+//@   requires ctx != nil && cache.requestUser == nil
 //@   ensures [refused] !auth.hasUser(ctx) ==> err != nil && cache.repoWrites == old(cache.repoWrites)
 
 // The closures handed to the pagination functions (property C20). The edger must give the element at
